@@ -2,7 +2,7 @@
    column count against the table metadata, the struct and the columns array, then one sbdf_cs_read per column; a failure
    in any column ends in sbdf_ts_destroy releasing the columns read so far, the array and the struct. *)
 From Sbdf Require Import ImpCall Gen.Prog Gen.Consts Base Prim Obj Va BaseFacts LeafTie ImpBase ImpFactsCells ImpFactsCap ImpFactsGrow ImpFactsDestroy
-  ImpFactsInt32 ImpFactsRead ImpFactsReadObj ImpFactsReadArr ImpFactsSkipObj SkipLaws ImpFactsFrame ImpFactsRelease ImpFactsReleaseAll ImpFactsReleaseTs ImpFactsReadVa ImpFactsCsRead ImpFactsCsReadProps.
+  ImpFactsInt32 ImpFactsRead ImpFactsReadObj ImpFactsReadArr ImpFactsSkipObj SkipLaws ImpFactsFrame ImpFactsRelease ImpFactsReleaseAll ImpFactsReleaseTs ImpFactsReadVa ImpFactsCsRead ImpFactsCsReadProps ImpFactsSkipS Slice.
 From Coq Require Import ZifyBool.
 Local Open Scope Z_scope.
 Ltac Zify.zify_post_hook ::= Z.div_mod_to_equations.
@@ -10,7 +10,7 @@ Ltac Zify.zify_post_hook ::= Z.div_mod_to_equations.
 Ltac evs := cbn [prog_env eval_args callee_init finish_call copy_in copy_out try_update update lookup combine map app String.append
                  String.eqb Ascii.eqb Bool.eqb fparams flocals vars inb outb budget_var fail_var strm_var cells_var cell_token List.length Nat.eqb eval set_var cast
                  truth binop_int b2z negb heap_of as_ptr storable fst snd stream_of set_stream
-                 prog_sbdf_cs_destroy prog_sbdf_ts_destroy prog_sbdf_ts_read prog_sbdf_cs_read prog_sbdf_sec_read prog_sbdf_read_int32 prog_sbdf_calculate_array_capacity];
+                 prog_sbdf_cs_destroy prog_sbdf_ts_destroy prog_sbdf_ts_read prog_sbdf_cs_read prog_sbdf_cs_skip prog_sbdf_sec_read prog_sbdf_read_int32 prog_sbdf_calculate_array_capacity];
   change (0 =? 0) with true; change (1 =? 0) with false; cbn [negb b2z].
 
 
@@ -208,7 +208,7 @@ Qed.
 
 (* ================================================================== sbdf_ts_read *)
 Section Main.
-Variables (rf rp : region) (fo po : Z) (so : val) (h : heap) (tmb : nat) (n : Z).
+Variables (rf rp : region) (fo po : Z) (so : val) (h : heap) (tmb : nat) (n : Z) (sub : option (Z * list Z)).
 Notation fv := (VPtr rf fo).
 Notation ov := (VPtr rp po).
 Notation L := (List.length h).
@@ -216,9 +216,32 @@ Notation cap := (array_capacity n).
 Hypothesis Hn : 0 <= n <= 715827882.
 Hypothesis Htm : cell_get h tmb 1 = Some (VInt n).
 
+(* the column subset: none (every column is read), or a flag per column in the caller's memory at offset q *)
+Definition sv : val := match sub with None => VNull | Some (q, _) => VPtr RIn q end.
+Definition sel (i : Z) : bool := match sub with None => true | Some (_, fl) => negb (nth (Z.to_nat i) fl 0 =? 0) end.
+Definition flags_in (m : list Z) : Prop :=
+  match sub with None => True | Some (q, fl) => exists mp mq, m = mp ++ fl ++ mq /\ zlen mp = q /\ n <= zlen fl /\ Forall byte fl end.
+Lemma flags_in_app m x : flags_in m -> flags_in (m ++ x).
+Proof. unfold flags_in. destruct sub as [[q fl]|]; [|trivial]. intros (mp & mq & -> & H1 & H2 & H3). exists mp, (mq ++ x). rewrite <- !app_assoc. repeat split; assumption. Qed.
+Lemma flags_load m vs oo i q fl : sub = Some (q, fl) -> flags_in m -> 0 <= i < n ->
+  zlen m >= q + i /\ 0 <= q /\ load (VPtr RIn (q + i)) {| vars := vs; inb := m; outb := oo |} = Some (VInt (sgn (nth (Z.to_nat i) fl 0))) /\ 0 <= nth (Z.to_nat i) fl 0 <= 255.
+Proof.
+  intros E F Hi. unfold flags_in in F. rewrite E in F. destruct F as (mp & mq & -> & H1 & H2 & H3).
+  pose proof (zlen_nonneg mp). pose proof (zlen_nonneg mq). pose proof (zlen_nonneg fl).
+  assert (Hl : (Z.to_nat i < List.length fl)%nat) by (unfold zlen in *; lia).
+  assert (Hsp : fl = firstn (Z.to_nat i) fl ++ nth (Z.to_nat i) fl 0 :: skipn (S (Z.to_nat i)) fl).
+  { rewrite <- (firstn_skipn (Z.to_nat i) fl) at 1. f_equal. clear -Hl. revert fl Hl. induction (Z.to_nat i) as [|k IH]; intros [|a l] Hl; cbn [List.length] in Hl; try lia; [reflexivity|]. cbn [skipn nth]. apply IH. lia. }
+  split; [rewrite !zlen_app; lia|]. split; [lia|]. split.
+  - set (f := nth (Z.to_nat i) fl 0) in *.
+    replace (mp ++ fl ++ mq) with ((mp ++ firstn (Z.to_nat i) fl) ++ f :: (skipn (S (Z.to_nat i)) fl ++ mq)) by (rewrite Hsp at 3; rewrite <- !app_assoc; reflexivity).
+    replace (q + i) with (zlen (mp ++ firstn (Z.to_nat i) fl)) by (rewrite zlen_app; unfold zlen at 2; rewrite firstn_length; unfold zlen in *; lia).
+    apply load_mid.
+  - rewrite Forall_forall in H3. apply (H3 (nth (Z.to_nat i) fl 0)). apply nth_In. exact Hl.
+Qed.
+
 Record trl := { t_cc : val; t_err : val; t_i : val; t_t : val; t_v : val; t_a1 : val; t_c1 : val; t_so : val }.
 Definition trf (l : trl) (k : Z) (sx : list Z) (hh : heap) (m : list Z) : state :=
-  fr [("f", fv); ("meta", VCell tmb 0); ("subset", VNull); ("out", ov); ("column_count", t_cc l); ("error", t_err l); ("i", t_i l); ("t", t_t l); ("v", t_v l);
+  fr [("f", fv); ("meta", VCell tmb 0); ("subset", sv); ("out", ov); ("column_count", t_cc l); ("error", t_err l); ("i", t_i l); ("t", t_t l); ("v", t_v l);
       ("$a1", t_a1 l); ("$c1", t_c1 l); ("*out", t_so l)]%string bv k sx hh m o.
 Ltac untr := unfold trf, fr; cbn [t_cc t_err t_i t_t t_v t_a1 t_c1 t_so app].
 
@@ -250,11 +273,35 @@ Definition lts (i st : Z) (a1 : val) (cc : list val) (T : heap) (k : Z) (s m : l
 
 Ltac unlt := unfold lts; untr.
 
+Lemma neg_cs_skip : neg (cs_skip false).
+Proof.
+  unfold cs_skip. apply neg_bind; [apply neg_sec_expect|intros _]. apply neg_bind; [apply neg_va_skip|intros _]. apply neg_bind; [apply neg_read_int32|intros v].
+  destruct (v <? 0); [apply neg_fail; reflexivity|]. apply neg_bind; [apply neg_rrepeat, neg_skip_prop|intros; apply neg_ret].
+Qed.
+Lemma shr_cs_skip : shr (cs_skip false).
+Proof.
+  unfold cs_skip. apply shr_bind; [apply shr_sec_expect|intros _]. apply shr_bind; [apply shr_va_skip|intros _]. apply shr_bind; [apply shr1_shr, shr1_read_int32|intros v].
+  destruct (v <? 0); [apply shr_fail|]. apply shr_bind; [apply shr_rrepeat, shr1_shr, shr1_skip_prop|intros; apply shr_ret].
+Qed.
+
+(* the model's readers along the columns, a column the subset leaves out being skipped *)
+Definition csk_end (s : list Z) : option (list Z) := match cs_skip false s with Ok (_, s') => Some s' | Err _ => None end.
+Fixpoint colsf_nobit (rem : nat) (i : Z) (s : list Z) : Prop :=
+  match rem with
+  | O => True
+  | S r => (if sel i then cs_nobit s else True) /\ match (if sel i then cs_end s else csk_end s) with Some s' => colsf_nobit r (i + 1) s' | None => True end
+  end.
+Fixpoint colsf_end (rem : nat) (i : Z) (s : list Z) : option (list Z) :=
+  match rem with
+  | O => Some s
+  | S r => match (if sel i then cs_end s else csk_end s) with Some s' => colsf_end r (i + 1) s' | None => None end
+  end.
+
 Lemma ts_loop_bs : forall rem i hs blocks a1 k s m,
-  Z.of_nat rem = n - i -> 0 <= i -> zlen hs = i -> cols_sem m (S (S L)) hs blocks -> Forall byte s -> cols_nobit rem s ->
+  Z.of_nat rem = n - i -> 0 <= i -> zlen hs = i -> cols_sem m (S (S L)) hs blocks -> Forall byte s -> colsf_nobit rem i s -> flags_in m ->
   (exists hs' blocks' a1' k' s' m',
      bsE prog_env ts_loop (lts i 0 a1 (hs ++ zeros (Z.to_nat (cap - i))) blocks k s m) (ONormal (lts n 0 a1' (hs' ++ zeros (Z.to_nat (cap - n))) blocks' k' s' m')) /\
-     prefix_of m m' /\ zlen hs' = n /\ cols_sem m' (S (S L)) hs' blocks' /\ cols_end rem s = Some s')
+     prefix_of m m' /\ zlen hs' = n /\ cols_sem m' (S (S L)) hs' blocks' /\ colsf_end rem i s = Some s')
   \/ (exists st i' a1' k' s' m' j, st < 0 /\ prefix_of m m' /\
         bsE prog_env ts_loop (lts i 0 a1 (hs ++ zeros (Z.to_nat (cap - i))) blocks k s m)
           (OReturn (VInt st) (trf (Build_trl (VInt n) (VInt st) (VInt i') (VCell L 0) (VInt 3) a1' (VInt cap) so) k' s' (h ++ nones j) m'))).
@@ -262,7 +309,16 @@ Proof.
   assert (Hc1 : n <= cap) by (apply cap_loop_enough; lia).
   assert (COND : forall i st a1 cc T kk ss mm, eval (EBin Lt (EVar "i") (ECellLoad (EVar "t") (EConst 1) false))%string (lts i st a1 cc T kk ss mm) = Some (VInt (b2z (i <? n)), lts i st a1 cc T kk ss mm)).
   { intros. unlt. evs. chk7. evs. rewrite HT_getT by lia. unfold tsl. change (Z.to_nat (0 + 1)) with 1%nat. cbn [nth_error]. evs. reflexivity. }
-  induction rem as [|rem IH]; intros i hs blocks a1 k s m Hrem Hi Hhs C Hs NBC.
+  assert (SUB : forall i st a cc T kk ss mm, 0 <= i < n -> flags_in mm ->
+            eval (ELOr (ELNot (EVar "subset")) (ECast TInt (EDeref (EPtrAdd (EVar "subset") (EVar "i")))))%string (lts i st a cc T kk ss mm) = Some (VInt (b2z (sel i)), lts i st a cc T kk ss mm)).
+  { intros i st a cc T kk ss mm Hi F. unlt. unfold sel, sv. destruct sub as [[q fl]|] eqn:Esub; [|evs; reflexivity].
+    destruct (flags_load mm [("f"%string, fv); ("meta"%string, VCell tmb 0); ("subset"%string, VPtr RIn q); ("out"%string, ov); ("column_count"%string, VInt n); ("error"%string, VInt st);
+          ("i"%string, VInt i); ("t"%string, VCell L 0); ("v"%string, VInt 3); ("$a1"%string, a); ("$c1"%string, VInt cap); ("*out"%string, so); (budget_var, bv); (fail_var, VInt kk); (strm_var, VBytes ss);
+          (cells_var, VHeap (HT cc T))] o i q fl Esub F Hi) as (Hlen & Hq & LD & Hf).
+    evs. unfold ptr_add. cbn [inb]. rewrite zlen_length. replace ((0 <=? q + i) && (q + i <=? zlen mm)) with true by lia. evs. rewrite LD. evs.
+    unfold sgn. destruct (nth (Z.to_nat i) fl 0 <? 128) eqn:E8; chk7; evs; cbn [truth];
+      [destruct (nth (Z.to_nat i) fl 0 =? 0) eqn:E0; reflexivity|replace (nth (Z.to_nat i) fl 0 - 256 =? 0) with false by lia; replace (nth (Z.to_nat i) fl 0 =? 0) with false by lia; reflexivity]. }
+  induction rem as [|rem IH]; intros i hs blocks a1 k s m Hrem Hi Hhs C Hs NBC Fl.
   - left. assert (Ei : i = n) by lia. rewrite Ei in *. clear Ei.
     exists hs, blocks, a1, k, s, m. split; [|split; [exists []; now rewrite app_nil_r|split; [exact Hhs|split; [exact C|reflexivity]]]].
     unfold ts_loop. cbn [fbody prog_sbdf_ts_read]. eapply bsE_while_f; [apply COND|rewrite Z.ltb_irrefl; reflexivity].
@@ -270,66 +326,107 @@ Proof.
     assert (Hz : Z.to_nat (cap - i) = S (Z.to_nat (cap - (i + 1)))) by lia. rewrite Hz.
     set (n1 := Z.to_nat (cap - (i + 1))).
     set (cc0 := hs ++ zeros (S n1)).
-    cbn [cols_nobit cols_end] in NBC |- *. destruct NBC as ((NB1 & NBP1) & NBC).
-    destruct (cs_read_gen bv o rf ROut fo 0 VNull k s (HT cc0 blocks) m Hs NB1 NBP1 (props_ok bv o rf ROut fo 0 VNull (HT cc0 blocks)))
-      as (st1 & l1 & k1 & s1 & h1 & m1 & CR & (x1 & Hm1) & Out1).
-    rewrite HT_len in Out1.
-    assert (Htl : exists X, h1 = HT cc0 (blocks ++ X)) by (destruct Out1 as [(_ & _ & (hnew & -> & _) & _)|(_ & _ & j & ->)]; eexists; apply HT_app).
-    destruct Htl as (X & Htl).
-    assert (So1 : storable (c_so l1) = true) by (destruct Out1 as [(_ & -> & _)|(_ & -> & _)]; reflexivity).
-    assert (Hmm1 : zlen m <= zlen m1) by (rewrite Hm1, zlen_app; pose proof (zlen_nonneg x1); lia).
-    assert (C3 : bsE prog_env (SSeq (SExpr (EAssign "$a1" (ECellLoad (ECellLoad (EVar "t") (EConst 2) true) (EVar "i") true))) (SSeq (SCall (Some "error") "sbdf_cs_read" [(AVal (EVar "f")); (AAddr "$a1")]) (SExpr (ECellStore (ECellLoad (EVar "t") (EConst 2) true) (EVar "i") (EVar "$a1")))))%string
-                   (lts i 0 a1 cc0 blocks k s m) (ONormal (lts i st1 (c_so l1) (hs ++ c_so l1 :: zeros n1) (blocks ++ X) k1 s1 m1))).
-    { revert CR So1. rewrite Htl. destruct l1 as [q1 q2 q3 q4 q5 q6 q7 q8 q9 q10]. unfold crf, crl0, fr. cbn [c_cap c_err c_i c_t c_v c_a1 c_a2 c_a3 c_goto c_so app]. unlt. intros CR So1.
-      eapply bsE_seq; [eapply bsE_expr; evs; chk7; evs; rewrite HT_getT by lia; unfold tsl; change (Z.to_nat (0 + 2)) with 2%nat; cbn [nth_error]; evs; replace (0 + i) with i by lia;
-                       rewrite HT_getC by lia; unfold cc0; rewrite (nth_zeros' hs n1 i Hhs); evs; reflexivity|].
-      eapply bsE_seq; [eapply bsE_call; [reflexivity|evs; reflexivity|reflexivity|exact CR|evs; reflexivity]|].
-      eapply bsE_expr. evs. chk7. evs. rewrite HT_getT by lia. unfold tsl. change (Z.to_nat (0 + 2)) with 2%nat. cbn [nth_error]. evs. replace (0 + i) with i by lia.
-      destruct q10; try discriminate So1; evs; (erewrite HT_setC; [|lia|unfold cc0; apply (set_zeros hs n1 i _ Hhs)]); evs; reflexivity. }
-    assert (SUB : forall st a cc T kk ss mm, eval (ELOr (ELNot (EVar "subset")) (ECast TInt (EDeref (EPtrAdd (EVar "subset") (EVar "i")))))%string (lts i st a cc T kk ss mm) = Some (VInt 1, lts i st a cc T kk ss mm))
-      by (intros; unlt; evs; reflexivity).
     set (a := Z.to_nat (n - i - 1)). set (b := Z.to_nat (cap - n)).
     assert (Hn1 : n1 = (a + b)%nat) by (unfold n1, a, b; lia).
     assert (Zs : forall x y, zeros (x + y) = zeros x ++ zeros y) by (intros; unfold zeros; apply repeat_app).
     assert (ZN : forall x, Forall (fun c => as_ptr c = VNull) (zeros x)) by (intros x; unfold zeros; apply Forall_forall; intros c Hc; apply repeat_spec in Hc; subst c; reflexivity).
-    destruct Out1 as [(-> & Ho1 & (hnew & Hh1 & Hnn & CS) & s1' & va & s2 & v & s3 & E1 & E2 & E3 & E4 & E5 & Hs1)|(Hneg1 & Ho1 & j & Hh1)].
-    2: { (* the column cannot be read: the table slice is released *)
-      right. assert (X = nones j) by (rewrite Htl, HT_app in Hh1; apply HT_inj in Hh1; apply app_inv_head in Hh1; exact Hh1). subst X.
-      rewrite Ho1 in C3.
-      pose proof (ts_destroy_read_bs k1 s1 m1 h (VCell tmb 0) n hs (VNull :: zeros a) (zeros b) blocks (nones j) VUndef (cols_mono m m1 Hmm1 _ _ _ C)
-                    ltac:(rewrite zlen_cons, zlen_zeros; unfold a; lia) ltac:(unfold int_max; lia) ltac:(constructor; [reflexivity|apply ZN])) as D.
-      replace (hs ++ (VNull :: zeros a) ++ zeros b) with (hs ++ VNull :: zeros n1) in D by (cbn [app]; rewrite <- Zs, Hn1; reflexivity).
-      fold tsl in D. unfold fr in D. cbn [app] in D.
-      exists st1, i, VNull, k1, s1, m1, (2 + List.length blocks + j)%nat. split; [exact Hneg1|]. split; [exists x1; exact Hm1|].
-      replace (h ++ nones (2 + List.length blocks + j)) with (h ++ None :: None :: nones (List.length blocks) ++ nones j) by (rewrite nones_app; reflexivity).
-      unfold ts_loop. cbn [fbody prog_sbdf_ts_read].
-      eapply bsE_while_ret; [apply COND|replace (i <? n) with true by lia; reflexivity|].
-      eapply bsE_seq_ret. eapply bsE_seq; [eapply bsE_if; [apply SUB|reflexivity|exact C3]|].
-      unlt. eapply bsE_if; [evs; reflexivity|cbn [truth]; replace (st1 =? 0) with false by lia; reflexivity|].
-      eapply bsE_seq; [eapply bsE_call_void; [reflexivity|evs; reflexivity|reflexivity|evs; exact D|evs; reflexivity]|].
-      eapply bsE_return. evs. reflexivity. }
-    (* the column is there: on to the next one *)
-    assert (X = hnew) by (rewrite Htl, HT_app in Hh1; apply HT_inj in Hh1; apply app_inv_head in Hh1; exact Hh1). subst X.
-    rewrite Ho1 in C3. rewrite HT_len in CS.
-    assert (E1' : s1' = s1') by reflexivity.
-    assert (CE : cs_end s = Some s1) by (unfold cs_end; rewrite E1, E2, E3; replace (v <? 0) with false by lia; exact E5).
-    rewrite CE in NBC |- *.
-    set (hb := VCell (S (S L) + List.length blocks) 0) in *.
-    assert (C1 : cols_sem m1 (S (S L)) (hs ++ [hb]) (blocks ++ hnew)) by (apply cols_snoc; [apply (cols_mono m m1 Hmm1); exact C|exact Hnn|exact CS]).
-    destruct (IH (i + 1) (hs ++ [hb]) (blocks ++ hnew) hb k1 s1 m1 ltac:(lia) ltac:(lia) ltac:(rewrite zlen_app; change (zlen [hb]) with 1; lia) C1 Hs1 NBC)
-      as [(hs' & blocks' & a1' & k' & s' & m' & BL & (x3 & Hm') & R1 & R2 & R3)|(st & i' & a1' & k' & s' & m' & j & Hneg & (x3 & Hm') & BL)].
-    + left. exists hs', blocks', a1', k', s', m'. split; [|split; [exists (x1 ++ x3); rewrite Hm', Hm1, app_assoc; reflexivity|split; [exact R1|split; [exact R2|exact R3]]]].
-      rewrite <- app_assoc in BL. cbn [app] in BL. fold n1 in BL.
-      unfold ts_loop in *. cbn [fbody prog_sbdf_ts_read] in *.
-      eapply bsE_while_t; [apply COND|replace (i <? n) with true by lia; reflexivity| |exact BL].
-      eapply bsE_seq; [eapply bsE_seq; [eapply bsE_if; [apply SUB|reflexivity|exact C3]|unlt; eapply bsE_if; [evs; reflexivity|reflexivity|apply bsE_skip]]|].
-      unlt. eapply bsE_expr. evs. unfold incr. chk7. evs. reflexivity.
-    + right. exists st, i', a1', k', s', m', j. split; [exact Hneg|]. split; [exists (x1 ++ x3); rewrite Hm', Hm1, app_assoc; reflexivity|].
-      rewrite <- app_assoc in BL. cbn [app] in BL. fold n1 in BL.
-      unfold ts_loop in *. cbn [fbody prog_sbdf_ts_read] in *.
-      eapply bsE_while_t; [apply COND|replace (i <? n) with true by lia; reflexivity| |exact BL].
-      eapply bsE_seq; [eapply bsE_seq; [eapply bsE_if; [apply SUB|reflexivity|exact C3]|unlt; eapply bsE_if; [evs; reflexivity|reflexivity|apply bsE_skip]]|].
-      unlt. eapply bsE_expr. evs. unfold incr. chk7. evs. reflexivity.
+    cbn [colsf_nobit colsf_end] in NBC |- *.
+    destruct (sel i) eqn:Esel.
+    + (* the column is read *)
+      destruct NBC as ((NB1 & NBP1) & NBC).
+      destruct (cs_read_gen bv o rf ROut fo 0 VNull k s (HT cc0 blocks) m Hs NB1 NBP1 (props_ok bv o rf ROut fo 0 VNull (HT cc0 blocks)))
+        as (st1 & l1 & k1 & s1 & h1 & m1 & CR & (x1 & Hm1) & Out1).
+      rewrite HT_len in Out1.
+      assert (Htl : exists X, h1 = HT cc0 (blocks ++ X)) by (destruct Out1 as [(_ & _ & (hnew & -> & _) & _)|(_ & _ & j & ->)]; eexists; apply HT_app).
+      destruct Htl as (X & Htl).
+      assert (So1 : storable (c_so l1) = true) by (destruct Out1 as [(_ & -> & _)|(_ & -> & _)]; reflexivity).
+      assert (Hmm1 : zlen m <= zlen m1) by (rewrite Hm1, zlen_app; pose proof (zlen_nonneg x1); lia).
+      assert (Fl1 : flags_in m1) by (rewrite Hm1; apply flags_in_app; exact Fl).
+      assert (C3 : bsE prog_env (SSeq (SExpr (EAssign "$a1" (ECellLoad (ECellLoad (EVar "t") (EConst 2) true) (EVar "i") true))) (SSeq (SCall (Some "error") "sbdf_cs_read" [(AVal (EVar "f")); (AAddr "$a1")]) (SExpr (ECellStore (ECellLoad (EVar "t") (EConst 2) true) (EVar "i") (EVar "$a1")))))%string
+                     (lts i 0 a1 cc0 blocks k s m) (ONormal (lts i st1 (c_so l1) (hs ++ c_so l1 :: zeros n1) (blocks ++ X) k1 s1 m1))).
+      { revert CR So1. rewrite Htl. destruct l1 as [q1 q2 q3 q4 q5 q6 q7 q8 q9 q10]. unfold crf, crl0, fr. cbn [c_cap c_err c_i c_t c_v c_a1 c_a2 c_a3 c_goto c_so app]. unlt. intros CR So1.
+        eapply bsE_seq; [eapply bsE_expr; evs; chk7; evs; rewrite HT_getT by lia; unfold tsl; change (Z.to_nat (0 + 2)) with 2%nat; cbn [nth_error]; evs; replace (0 + i) with i by lia;
+                         rewrite HT_getC by lia; unfold cc0; rewrite (nth_zeros' hs n1 i Hhs); evs; reflexivity|].
+        eapply bsE_seq; [eapply bsE_call; [reflexivity|evs; reflexivity|reflexivity|exact CR|evs; reflexivity]|].
+        eapply bsE_expr. evs. chk7. evs. rewrite HT_getT by lia. unfold tsl. change (Z.to_nat (0 + 2)) with 2%nat. cbn [nth_error]. evs. replace (0 + i) with i by lia.
+        destruct q10; try discriminate So1; evs; (erewrite HT_setC; [|lia|unfold cc0; apply (set_zeros hs n1 i _ Hhs)]); evs; reflexivity. }
+      pose proof (SUB i 0 a1 cc0 blocks k s m ltac:(lia) Fl) as SB. rewrite Esel in SB.
+      destruct Out1 as [(-> & Ho1 & (hnew & Hh1 & Hnn & CS) & s1' & va & s2 & v & s3 & E1 & E2 & E3 & E4 & E5 & Hs1)|(Hneg1 & Ho1 & j & Hh1)].
+      2: { (* the column cannot be read: the table slice is released *)
+        right. assert (X = nones j) by (rewrite Htl, HT_app in Hh1; apply HT_inj in Hh1; apply app_inv_head in Hh1; exact Hh1). subst X.
+        rewrite Ho1 in C3.
+        pose proof (ts_destroy_read_bs k1 s1 m1 h (VCell tmb 0) n hs (VNull :: zeros a) (zeros b) blocks (nones j) VUndef (cols_mono m m1 Hmm1 _ _ _ C)
+                      ltac:(rewrite zlen_cons, zlen_zeros; unfold a; lia) ltac:(unfold int_max; lia) ltac:(constructor; [reflexivity|apply ZN])) as D.
+        replace (hs ++ (VNull :: zeros a) ++ zeros b) with (hs ++ VNull :: zeros n1) in D by (cbn [app]; rewrite <- Zs, Hn1; reflexivity).
+        fold tsl in D. unfold fr in D. cbn [app] in D.
+        exists st1, i, VNull, k1, s1, m1, (2 + List.length blocks + j)%nat. split; [exact Hneg1|]. split; [exists x1; exact Hm1|].
+        replace (h ++ nones (2 + List.length blocks + j)) with (h ++ None :: None :: nones (List.length blocks) ++ nones j) by (rewrite nones_app; reflexivity).
+        unfold ts_loop. cbn [fbody prog_sbdf_ts_read].
+        eapply bsE_while_ret; [apply COND|replace (i <? n) with true by lia; reflexivity|].
+        eapply bsE_seq_ret. eapply bsE_seq; [eapply bsE_if; [exact SB|reflexivity|exact C3]|].
+        unlt. eapply bsE_if; [evs; reflexivity|cbn [truth]; replace (st1 =? 0) with false by lia; reflexivity|].
+        eapply bsE_seq; [eapply bsE_call_void; [reflexivity|evs; reflexivity|reflexivity|evs; exact D|evs; reflexivity]|].
+        eapply bsE_return. evs. reflexivity. }
+      assert (X = hnew) by (rewrite Htl, HT_app in Hh1; apply HT_inj in Hh1; apply app_inv_head in Hh1; exact Hh1). subst X.
+      rewrite Ho1 in C3. rewrite HT_len in CS.
+      assert (CE : cs_end s = Some s1) by (unfold cs_end; rewrite E1, E2, E3; replace (v <? 0) with false by lia; exact E5).
+      rewrite CE in NBC |- *.
+      set (hb := VCell (S (S L) + List.length blocks) 0) in *.
+      assert (C1 : cols_sem m1 (S (S L)) (hs ++ [hb]) (blocks ++ hnew)) by (apply cols_snoc; [apply (cols_mono m m1 Hmm1); exact C|exact Hnn|exact CS]).
+      destruct (IH (i + 1) (hs ++ [hb]) (blocks ++ hnew) hb k1 s1 m1 ltac:(lia) ltac:(lia) ltac:(rewrite zlen_app; change (zlen [hb]) with 1; lia) C1 Hs1 NBC Fl1)
+        as [(hs' & blocks' & a1' & k' & s' & m' & BL & (x3 & Hm') & R1 & R2 & R3)|(st & i' & a1' & k' & s' & m' & j & Hneg & (x3 & Hm') & BL)].
+      * left. exists hs', blocks', a1', k', s', m'. split; [|split; [exists (x1 ++ x3); rewrite Hm', Hm1, app_assoc; reflexivity|split; [exact R1|split; [exact R2|exact R3]]]].
+        rewrite <- app_assoc in BL. cbn [app] in BL. fold n1 in BL.
+        unfold ts_loop in *. cbn [fbody prog_sbdf_ts_read] in *.
+        eapply bsE_while_t; [apply COND|replace (i <? n) with true by lia; reflexivity| |exact BL].
+        eapply bsE_seq; [eapply bsE_seq; [eapply bsE_if; [exact SB|reflexivity|exact C3]|unlt; eapply bsE_if; [evs; reflexivity|reflexivity|apply bsE_skip]]|].
+        unlt. eapply bsE_expr. evs. unfold incr. chk7. evs. reflexivity.
+      * right. exists st, i', a1', k', s', m', j. split; [exact Hneg|]. split; [exists (x1 ++ x3); rewrite Hm', Hm1, app_assoc; reflexivity|].
+        rewrite <- app_assoc in BL. cbn [app] in BL. fold n1 in BL.
+        unfold ts_loop in *. cbn [fbody prog_sbdf_ts_read] in *.
+        eapply bsE_while_t; [apply COND|replace (i <? n) with true by lia; reflexivity| |exact BL].
+        eapply bsE_seq; [eapply bsE_seq; [eapply bsE_if; [exact SB|reflexivity|exact C3]|unlt; eapply bsE_if; [evs; reflexivity|reflexivity|apply bsE_skip]]|].
+        unlt. eapply bsE_expr. evs. unfold incr. chk7. evs. reflexivity.
+    + (* the subset leaves the column out: it is skipped *)
+      destruct NBC as (_ & NBC).
+      pose proof (SUB i 0 a1 cc0 blocks k s m ltac:(lia) Fl) as SB. rewrite Esel in SB.
+      pose proof (cs_skip_bsS k (HT cc0 blocks) m rf fo VUndef VUndef bv s o Hs) as CK. unfold csk_end in *.
+      destruct (cs_skip false s) as [[u s1]|st1] eqn:ECK.
+      * destruct CK as (e' & v' & CK). pose proof (proj1 (shr_cs_skip s u s1 Hs ECK)) as Hs1.
+        assert (K3 : bsE prog_env (SCall (Some "error") "sbdf_cs_skip" [(AVal (EVar "f"))])%string (lts i 0 a1 cc0 blocks k s m) (ONormal (lts i 0 a1 cc0 blocks k s1 m))).
+        { revert CK. unfold ckS. unlt. intros CK. eapply bsE_call; [reflexivity|evs; reflexivity|reflexivity|exact CK|evs; reflexivity]. }
+        assert (C1 : cols_sem m (S (S L)) (hs ++ [VInt 0]) blocks) by (apply cols_snoc_skip; [exact C|reflexivity]).
+        destruct (IH (i + 1) (hs ++ [VInt 0]) blocks a1 k s1 m ltac:(lia) ltac:(lia) ltac:(rewrite zlen_app; change (zlen [VInt 0]) with 1; lia) C1 Hs1 NBC Fl)
+          as [(hs' & blocks' & a1' & k' & s' & m' & BL & Pf & R1 & R2 & R3)|(st & i' & a1' & k' & s' & m' & j & Hneg & Pf & BL)].
+        -- left. exists hs', blocks', a1', k', s', m'. split; [|split; [exact Pf|split; [exact R1|split; [exact R2|exact R3]]]].
+           rewrite <- app_assoc in BL. cbn [app] in BL. fold n1 in BL. change (VInt 0 :: zeros n1) with (zeros (S n1)) in BL. fold cc0 in BL.
+           unfold ts_loop in *. cbn [fbody prog_sbdf_ts_read] in *.
+           eapply bsE_while_t; [apply COND|replace (i <? n) with true by lia; reflexivity| |exact BL].
+           eapply bsE_seq; [eapply bsE_seq; [eapply bsE_if; [exact SB|reflexivity|exact K3]|unlt; eapply bsE_if; [evs; reflexivity|reflexivity|apply bsE_skip]]|].
+           unlt. eapply bsE_expr. evs. unfold incr. chk7. evs. reflexivity.
+        -- right. exists st, i', a1', k', s', m', j. split; [exact Hneg|]. split; [exact Pf|].
+           rewrite <- app_assoc in BL. cbn [app] in BL. fold n1 in BL. change (VInt 0 :: zeros n1) with (zeros (S n1)) in BL. fold cc0 in BL.
+           unfold ts_loop in *. cbn [fbody prog_sbdf_ts_read] in *.
+           eapply bsE_while_t; [apply COND|replace (i <? n) with true by lia; reflexivity| |exact BL].
+           eapply bsE_seq; [eapply bsE_seq; [eapply bsE_if; [exact SB|reflexivity|exact K3]|unlt; eapply bsE_if; [evs; reflexivity|reflexivity|apply bsE_skip]]|].
+           unlt. eapply bsE_expr. evs. unfold incr. chk7. evs. reflexivity.
+      * (* the column cannot be skipped: the table slice is released *)
+        destruct CK as (e' & v' & s1 & CK). pose proof (neg_cs_skip s st1 ECK) as Hneg1.
+        assert (K3 : bsE prog_env (SCall (Some "error") "sbdf_cs_skip" [(AVal (EVar "f"))])%string (lts i 0 a1 cc0 blocks k s m) (ONormal (lts i st1 a1 cc0 blocks k s1 m))).
+        { revert CK. unfold ckS. unlt. intros CK. eapply bsE_call; [reflexivity|evs; reflexivity|reflexivity|exact CK|evs; reflexivity]. }
+        right.
+        pose proof (ts_destroy_read_bs k s1 m h (VCell tmb 0) n hs (zeros (S a)) (zeros b) blocks [] VUndef C
+                      ltac:(rewrite zlen_zeros; unfold a; lia) ltac:(unfold int_max; lia) (ZN _)) as D.
+        replace (hs ++ zeros (S a) ++ zeros b) with cc0 in D by (unfold cc0; rewrite <- Zs; do 2 f_equal; lia).
+        rewrite !app_nil_r in D. fold tsl in D. unfold fr in D. cbn [app] in D.
+        exists st1, i, a1, k, s1, m, (2 + List.length blocks)%nat. split; [exact Hneg1|]. split; [exists []; now rewrite app_nil_r|].
+        replace (h ++ nones (2 + List.length blocks)) with (h ++ None :: None :: nones (List.length blocks)) by reflexivity.
+        unfold ts_loop. cbn [fbody prog_sbdf_ts_read].
+        eapply bsE_while_ret; [apply COND|replace (i <? n) with true by lia; reflexivity|].
+        eapply bsE_seq_ret. eapply bsE_seq; [eapply bsE_if; [exact SB|reflexivity|exact K3]|].
+        unlt. eapply bsE_if; [evs; reflexivity|cbn [truth]; replace (st1 =? 0) with false by lia; reflexivity|].
+        eapply bsE_seq; [eapply bsE_call_void; [reflexivity|evs; reflexivity|reflexivity|evs; exact D|evs; reflexivity]|].
+        eapply bsE_return. evs. reflexivity.
 Qed.
 
 Definition trl0 : trl := Build_trl VUndef VUndef VUndef VUndef VUndef VUndef VUndef so.
@@ -346,16 +443,16 @@ Definition ts_frame_status (sx : list Z) (st : Z) : Prop :=
     end
   end.
 
-Lemma ts_read_bs k sx m : Forall byte sx ->
-  (forall s1 s2, sec_read sx = Ok (3, s1) -> read_int32 false s1 = Ok (n, s2) -> cols_nobit (Z.to_nat n) s2) ->
+Lemma ts_read_bs k sx m : Forall byte sx -> flags_in m ->
+  (forall s1 s2, sec_read sx = Ok (3, s1) -> read_int32 false s1 = Ok (n, s2) -> colsf_nobit (Z.to_nat n) 0 s2) ->
   exists st l' k' s' h' m',
     bsE prog_env (fbody prog_sbdf_ts_read) (trf trl0 k sx h m) (OReturn (VInt st) (trf l' k' s' h' m')) /\ prefix_of m m' /\ ts_frame_status sx st /\
     ((st = SBDF_OK /\ t_so l' = VCell L 0 /\
         (exists hs blocks, h' = HT (hs ++ zeros (Z.to_nat (cap - n))) blocks /\ zlen hs = n /\ cols_sem m' (S (S L)) hs blocks) /\
-        exists s1 s2, sec_read sx = Ok (3, s1) /\ read_int32 false s1 = Ok (n, s2) /\ cols_end (Z.to_nat n) s2 = Some s')
+        exists s1 s2, sec_read sx = Ok (3, s1) /\ read_int32 false s1 = Ok (n, s2) /\ colsf_end (Z.to_nat n) 0 s2 = Some s')
      \/ (st < 0 /\ t_so l' = so /\ exists j, h' = h ++ nones j)).
 Proof.
-  intros Hs NBC. unfold ts_frame_status.
+  intros Hs Fl NBC. unfold ts_frame_status.
   assert (Hc1 : n <= cap) by (apply cap_loop_enough; lia).
   pose proof (sec_read_bs2 bv o fv (VPtr ROut 0) VUndef VUndef VUndef VUndef k sx h m I I Hs) as SR.
   (* the declarations and the argument check *)
@@ -476,7 +573,7 @@ Proof.
     eapply bsE_seq; [eapply bsE_expr; evs; chk7; evs; (erewrite (cell_set_at h); [|reflexivity|lia|reflexivity]); evs; reflexivity|].
     eapply bsE_expr. evs. chk7. unfold HT, zeros. reflexivity. }
   specialize (NBC s1 s2 eq_refl ER).
-  destruct (ts_loop_bs (Z.to_nat n) 0 [] [] VUndef k2 s2 m ltac:(lia) ltac:(lia) eq_refl (cols_nil _ _) Hs2 NBC)
+  destruct (ts_loop_bs (Z.to_nat n) 0 [] [] VUndef k2 s2 m ltac:(lia) ltac:(lia) eq_refl (cols_nil _ _) Hs2 NBC Fl)
     as [(hs' & blocks' & a1' & k' & s' & m' & BL & Pf & R1 & R2 & R3)|(st & i' & a1' & k' & s' & m' & j & Hneg & Pf & BL)].
   - (* every column was read *)
     exists SBDF_OK. eexists (Build_trl _ _ _ _ _ _ _ _). do 4 eexists. split; [|split; [exact Pf|split; [exact I|left]]].
@@ -498,12 +595,12 @@ End Main.
 End TsRead.
 
 (* ================================================================== as a top-level call *)
-Theorem ts_read_source rf rp fo po k sx m (h : heap) tmb n : Forall byte sx -> 0 <= n <= 715827882 -> cell_get h tmb 1 = Some (VInt n) ->
-  (forall s1 s2, sec_read sx = Ok (3, s1) -> read_int32 false s1 = Ok (n, s2) -> cols_nobit (Z.to_nat n) s2) ->
+Theorem ts_read_sub_source rf rp fo po k sx m (h : heap) tmb n sub : Forall byte sx -> 0 <= n <= 715827882 -> cell_get h tmb 1 = Some (VInt n) -> flags_in n sub m ->
+  (forall s1 s2, sec_read sx = Ok (3, s1) -> read_int32 false s1 = Ok (n, s2) -> colsf_nobit sub (Z.to_nat n) 0 s2) ->
   exists f0, forall f, (f0 <= f)%nat -> exists st fin,
-    callC prog_env f prog_sbdf_ts_read [VPtr rf fo; VCell tmb 0; VNull; VPtr rp po] m k sx h = OReturn (VInt st) fin /\ prefix_of m (inb fin) /\ ts_frame_status n sx st /\
+    callC prog_env f prog_sbdf_ts_read [VPtr rf fo; VCell tmb 0; sv sub; VPtr rp po] m k sx h = OReturn (VInt st) fin /\ prefix_of m (inb fin) /\ ts_frame_status n sx st /\
     ((st = SBDF_OK /\ lookup "*out" (vars fin) = Some (VCell (List.length h) 0) /\
-        (exists s1 s2 s', sec_read sx = Ok (3, s1) /\ read_int32 false s1 = Ok (n, s2) /\ cols_end (Z.to_nat n) s2 = Some s' /\ lookup strm_var (vars fin) = Some (VBytes s')) /\
+        (exists s1 s2 s', sec_read sx = Ok (3, s1) /\ read_int32 false s1 = Ok (n, s2) /\ colsf_end sub (Z.to_nat n) 0 s2 = Some s' /\ lookup strm_var (vars fin) = Some (VBytes s')) /\
         exists hnew, lookup cells_var (vars fin) = Some (VHeap (h ++ hnew)) /\ (2 <= List.length hnew)%nat /\
           (* one sbdf_ts_destroy releases everything the read allocated: every column, the columns array, the struct *)
           forall k' s', exists f1, forall g, (f1 <= g)%nat -> exists fin2,
@@ -511,8 +608,8 @@ Theorem ts_read_source rf rp fo po k sx m (h : heap) tmb n : Forall byte sx -> 0
             inb fin2 = inb fin /\ lookup cells_var (vars fin2) = Some (VHeap (h ++ nones (List.length hnew))))
      \/ (st < 0 /\ lookup "*out" (vars fin) = Some VUndef /\ exists j, lookup cells_var (vars fin) = Some (VHeap (h ++ nones j)))).
 Proof.
-  intros Hs Hn Htm NBC.
-  destruct (ts_read_bs (VInt 0) [] rf rp fo po VUndef h tmb n Hn Htm k sx m Hs NBC) as (st & l' & k' & s' & h' & m' & B & Pf & FS & Out).
+  intros Hs Hn Htm Fl NBC.
+  destruct (ts_read_bs (VInt 0) [] rf rp fo po VUndef h tmb n sub Hn Htm k sx m Hs Fl NBC) as (st & l' & k' & s' & h' & m' & B & Pf & FS & Out).
   destruct (bsE_sound _ _ _ _ B) as (f0 & F). exists f0. intros f Hf. exists st. eexists. split; [apply F; exact Hf|]. split; [exact Pf|]. split; [exact FS|].
   destruct l' as [q1 q2 q3 q4 q5 q6 q7 q8]. cbn [t_so] in Out.
   destruct Out as [(-> & -> & (hs & blocks & -> & Hz & C) & s1 & s2 & E1 & E2 & E3)|(Hneg & -> & j & ->)].
@@ -526,6 +623,31 @@ Proof.
     cbn [vars lookup fr app String.eqb Ascii.eqb Bool.eqb cells_var]. unfold fr. cbn [vars app lookup String.eqb Ascii.eqb Bool.eqb]. do 3 f_equal.
     cbn [List.length]. reflexivity.
   - right. split; [exact Hneg|]. split; [reflexivity|]. exists j. reflexivity.
+Qed.
+
+Lemma colsf_end_none : forall rem i s, colsf_end None rem i s = cols_end rem s.
+Proof. induction rem as [|r IH]; intros i s; cbn [colsf_end cols_end sel]; [reflexivity|]. destruct (cs_end s); [apply IH|reflexivity]. Qed.
+Lemma colsf_nobit_none : forall rem i s, cols_nobit rem s -> colsf_nobit None rem i s.
+Proof. induction rem as [|r IH]; intros i s; cbn [colsf_nobit cols_nobit sel]; [trivial|]. intros (A & B). split; [exact A|]. destruct (cs_end s); [apply IH; exact B|exact I]. Qed.
+
+(* without a column subset *)
+Theorem ts_read_source rf rp fo po k sx m (h : heap) tmb n : Forall byte sx -> 0 <= n <= 715827882 -> cell_get h tmb 1 = Some (VInt n) ->
+  (forall s1 s2, sec_read sx = Ok (3, s1) -> read_int32 false s1 = Ok (n, s2) -> cols_nobit (Z.to_nat n) s2) ->
+  exists f0, forall f, (f0 <= f)%nat -> exists st fin,
+    callC prog_env f prog_sbdf_ts_read [VPtr rf fo; VCell tmb 0; VNull; VPtr rp po] m k sx h = OReturn (VInt st) fin /\ prefix_of m (inb fin) /\ ts_frame_status n sx st /\
+    ((st = SBDF_OK /\ lookup "*out" (vars fin) = Some (VCell (List.length h) 0) /\
+        (exists s1 s2 s', sec_read sx = Ok (3, s1) /\ read_int32 false s1 = Ok (n, s2) /\ cols_end (Z.to_nat n) s2 = Some s' /\ lookup strm_var (vars fin) = Some (VBytes s')) /\
+        exists hnew, lookup cells_var (vars fin) = Some (VHeap (h ++ hnew)) /\ (2 <= List.length hnew)%nat /\
+          forall k' s', exists f1, forall g, (f1 <= g)%nat -> exists fin2,
+            callC prog_env g prog_sbdf_ts_destroy [VCell (List.length h) 0] (inb fin) k' s' (h ++ hnew) = ONormal fin2 /\
+            inb fin2 = inb fin /\ lookup cells_var (vars fin2) = Some (VHeap (h ++ nones (List.length hnew))))
+     \/ (st < 0 /\ lookup "*out" (vars fin) = Some VUndef /\ exists j, lookup cells_var (vars fin) = Some (VHeap (h ++ nones j)))).
+Proof.
+  intros Hs Hn Htm NBC.
+  destruct (ts_read_sub_source rf rp fo po k sx m h tmb n None Hs Hn Htm I (fun s1 s2 A B => colsf_nobit_none _ _ _ (NBC s1 s2 A B))) as (f0 & F).
+  exists f0. intros f Hf. destruct (F f Hf) as (st & fin & C & Pf & FS & Out). exists st, fin. split; [exact C|]. split; [exact Pf|]. split; [exact FS|].
+  destruct Out as [(E & Ho & (s1 & s2 & s' & A1 & A2 & A3 & A4) & R)|R]; [left|right; exact R].
+  split; [exact E|]. split; [exact Ho|]. split; [|exact R]. exists s1, s2, s'. rewrite colsf_end_none in A3. repeat split; assumption.
 Qed.
 
 (* ================================================================== cs_end / cols_end are where the L1 model's readers (Slice.v) end *)
@@ -583,4 +705,68 @@ Proof.
   destruct (F f Hf) as (st & fin & C & _ & Out). exists st, fin. split; [exact C|]. intros E.
   destruct Out as [(_ & _ & (s1 & va & s2 & v & s3 & s' & A1 & A2 & A3 & A4 & A5 & A6) & _)|(Hn & _)]; [|unfold SBDF_OK in E; lia].
   pose proof (cs_end_intro sx s1 va s2 v s3 s' A1 A2 A3 A4 A5) as CE. rewrite (cs_end_of_model sx c sM EM) in CE. assert (sM = s') by congruence. subst s'. exact A6.
+Qed.
+
+(* ================================================================== the model's readers on the encodings of well-formed slices (for the corollaries in Props/) *)
+From Sbdf Require Import SliceFacts PrimFacts VaFacts.
+Lemma props_of_encoding : forall (props : list (list Z * va)) tail, (forall p, In p props -> wf_prop p /\ venc (snd p) <> SBDF_BITARRAYENCODINGTYPEID) ->
+  props_end (List.length props) (List.concat (map (enc_prop false) props) ++ tail) = Some tail /\
+  props_nobit (List.length props) (List.concat (map (enc_prop false) props) ++ tail).
+Proof.
+  induction props as [|p props IH]; intros tail Hw; cbn [List.length map List.concat props_end props_nobit app]; [split; [reflexivity|exact I]|].
+  destruct (Hw p (or_introl eq_refl)) as ((Hl & Wv & Bv) & Hne).
+  destruct (rspec_string false (fst p) Hl) as [ES _]. destruct (rspec_va false (snd p) Wv Bv) as [EV _].
+  unfold enc_prop at 1 3. rewrite <- !app_assoc.
+  rewrite (ES (enc_va false (snd p) ++ List.concat (map (enc_prop false) props) ++ tail)).
+  rewrite (EV (List.concat (map (enc_prop false) props) ++ tail)).
+  destruct (IH tail (fun q Hq => Hw q (or_intror Hq))) as (I1 & I2).
+  split; [exact I1|]. split; [|exact I2].
+  intros t s2 X. unfold enc_va in X. cbn [app] in X. injection X as X _. destruct Wv; cbn [venc] in *; try discriminate X. apply Hne. reflexivity.
+Qed.
+
+Definition nobit_cs (c : cs va) : Prop := venc (csvals c) <> SBDF_BITARRAYENCODINGTYPEID /\ forall p, In p (csprops c) -> venc (snd p) <> SBDF_BITARRAYENCODINGTYPEID.
+
+Lemma cs_of_encoding : forall c rest, wf_cs c -> nobit_cs c -> cs_end (enc_cs false c ++ rest) = Some rest /\ cs_nobit (enc_cs false c ++ rest).
+Proof.
+  intros c rest (Wv & Bv & Hn & Wp) (Hne & Hnp). pose proof (zlen_nonneg (csprops c)) as N0.
+  assert (ESX : enc_cs false c ++ rest = [223; 91; SBDF_COLUMNSLICE_SECTIONID] ++ (enc_va false (csvals c) ++ enc32 false (zlen (csprops c)) ++ List.concat (map (enc_prop false) (csprops c)) ++ rest)).
+  { unfold enc_cs. rewrite <- !app_assoc. reflexivity. }
+  rewrite ESX. set (PT := List.concat (map (enc_prop false) (csprops c)) ++ rest).
+  destruct (rspec_sec_expect SBDF_COLUMNSLICE_SECTIONID) as [E0 _].
+  destruct (rspec_va false (csvals c) Wv Bv) as [EV _].
+  destruct (rspec_int32 false (zlen (csprops c)) ltac:(unfold i32_range; lia)) as [E32 _].
+  destruct (props_of_encoding (csprops c) rest (fun p Hp => conj (Wp p Hp) (Hnp p Hp))) as (PE & PN). fold PT in PE, PN.
+  assert (Hlen : Z.to_nat (zlen (csprops c)) = List.length (csprops c)) by (unfold zlen; lia).
+  split.
+  - unfold cs_end. rewrite E0, (EV (enc32 false (zlen (csprops c)) ++ PT)), (E32 PT). replace (zlen (csprops c) <? 0) with false by lia. rewrite Hlen. exact PE.
+  - split.
+    + intros s1 E. rewrite E0 in E. assert (Y : s1 = enc_va false (csvals c) ++ enc32 false (zlen (csprops c)) ++ PT) by congruence. subst s1. intros t s2 X. unfold enc_va in X. cbn [app] in X. injection X as X _. destruct Wv; cbn [venc] in *; try discriminate X. apply Hne. reflexivity.
+    + intros s1 va s2 v s3 E A R. rewrite E0 in E. assert (Y : s1 = enc_va false (csvals c) ++ enc32 false (zlen (csprops c)) ++ PT) by congruence. subst s1.
+      rewrite (EV (enc32 false (zlen (csprops c)) ++ PT)) in A. assert (Y : s2 = enc32 false (zlen (csprops c)) ++ PT) by congruence. subst s2.
+      rewrite (E32 PT) in R. assert (Y : v = zlen (csprops c) /\ s3 = PT) by (split; congruence). destruct Y as (-> & ->). rewrite Hlen. exact PN.
+Qed.
+
+Lemma cols_of_encoding : forall (cols : list (cs va)) tail, (forall c, In c cols -> wf_cs c /\ nobit_cs c) ->
+  cols_end (List.length cols) (List.concat (map (enc_cs false) cols) ++ tail) = Some tail /\ cols_nobit (List.length cols) (List.concat (map (enc_cs false) cols) ++ tail).
+Proof.
+  induction cols as [|c cols IH]; intros tail Hw; cbn [List.length map List.concat cols_end cols_nobit app]; [split; [reflexivity|exact I]|].
+  destruct (Hw c (or_introl eq_refl)) as (Wc & Nc). rewrite <- app_assoc.
+  destruct (cs_of_encoding c (List.concat (map (enc_cs false) cols) ++ tail) Wc Nc) as (CE & CN). rewrite CE.
+  destruct (IH tail (fun q Hq => Hw q (or_intror Hq))) as (I1 & I2). split; [exact I1|]. split; [exact CN|exact I2].
+Qed.
+
+
+Lemma colsf_of_encoding sub : forall (cols : list (cs va)) i tail, (forall c, In c cols -> wf_cs c) ->
+  (forall j c, nth_error cols j = Some c -> sel sub (i + Z.of_nat j) = true -> nobit_cs c) ->
+  colsf_end sub (List.length cols) i (List.concat (map (enc_cs false) cols) ++ tail) = Some tail /\ colsf_nobit sub (List.length cols) i (List.concat (map (enc_cs false) cols) ++ tail).
+Proof.
+  induction cols as [|c cols IH]; intros i tail Hw Hnb; cbn [List.length map List.concat colsf_end colsf_nobit app]; [split; [reflexivity|exact I]|].
+  rewrite <- app_assoc. set (rest := List.concat (map (enc_cs false) cols) ++ tail).
+  assert (IHx : colsf_end sub (List.length cols) (i + 1) rest = Some tail /\ colsf_nobit sub (List.length cols) (i + 1) rest).
+  { apply IH; [intros q Hq; apply Hw; right; exact Hq|]. intros j q Hj Hs. apply (Hnb (S j) q Hj). replace (i + Z.of_nat (S j)) with (i + 1 + Z.of_nat j) by lia. exact Hs. }
+  destruct IHx as (I1 & I2).
+  destruct (sel sub i) eqn:Es.
+  - destruct (cs_of_encoding c rest (Hw c (or_introl eq_refl)) (Hnb 0%nat c eq_refl ltac:(rewrite Z.add_0_r; exact Es))) as (CE & CN).
+    rewrite CE. split; [exact I1|]. split; [exact CN|exact I2].
+  - unfold csk_end. rewrite (cs_skip_exact false c rest (Hw c (or_introl eq_refl))). split; [exact I1|]. split; [exact I|exact I2].
 Qed.
